@@ -178,6 +178,16 @@ type Mem struct {
 	sliceHook func(SliceV)
 	refKind map[string]bool
 	alloc0  Term
+	writes  []writeRec // log of writes to pre-existing objects (for loop frames)
+}
+
+type writeRec struct {
+	comp string
+	base string // "" = whole component havoced
+}
+
+func (m *Mem) noteWrite(comp string, base Term) {
+	m.writes = append(m.writes, writeRec{comp, base.S})
 }
 
 func NewMem(c *Ctx) *Mem {
@@ -280,6 +290,7 @@ func (m *Mem) loadLeaf(st *State, p PtrV, lf Leaf) Term {
 func (m *Mem) storeLeaf(st *State, p PtrV, lf Leaf, v Term) {
 	name, isArr := compName(p, lf.Path)
 	m.markRef(name, lf.Kind)
+	m.noteWrite(name, p.Base)
 	comp := m.comp(st, name, m.compSort(isArr, lf.Sort))
 	var n Term
 	if isArr {
@@ -343,6 +354,7 @@ func (m *Mem) StoreVal(st *State, p PtrV, v Value) {
 		if s, _, ok := isScalarLeaf(p.Obj); ok {
 			name, _ := compName(p, "")
 			comp := m.comp(st, name, m.compSort(true, s))
+			m.noteWrite(name, p.Base)
 			st.heap[name] = m.c.Def(name, Store(comp, p.Base, v.(Scalar).T))
 			return
 		}
